@@ -48,6 +48,7 @@ type PathRecord struct {
 	FailLabel string   `json:"fail_label,omitempty"` // assertion that must fail natively ("" = none)
 	Obs       []Obs    `json:"obs,omitempty"`
 	Reach     []string `json:"reach,omitempty"`
+	Note      string   `json:"note,omitempty"`
 	Outcome   string   `json:"outcome"` // "end", "panic", "assert"
 	PanicMsg  string   `json:"panic_msg,omitempty"`
 }
@@ -171,6 +172,7 @@ type Explorer struct {
 	curSite  string
 	initW    map[string]uint64
 	pending  []pendingAssert
+	raceNote string
 	rng      *Ranges
 	skipped  int
 	known    map[int]bool // term ids asserted on this path (true) / whose negation was asserted (false)
@@ -451,6 +453,9 @@ func (e *Explorer) concretize(t *Term) uint64 {
 
 func (e *Explorer) record(outcome, panicMsg string) *PathRecord {
 	rec := &PathRecord{Entry: e.job.Entry, Cfg: e.job.Cfg, Tier: e.job.Tier, Outcome: outcome, PanicMsg: panicMsg, FailLabel: e.failed}
+	if e.failed == "C12/no-data-race" {
+		rec.Note = e.raceNote
+	}
 	e.ensureWitness()
 	for _, ir := range e.inputs {
 		if ir.v == nil {
